@@ -50,7 +50,7 @@ COVERAGE_EXTRA = {
     "invocation indices of the clean run x 4 exception types are injected (info.sum_injections = total injections, "
     "info.max_T = largest number of injection points of one case)",
 }
-REQUIRED_CLASSES = {"all": ["kinds=eval+solve+matmul", "kinds=eval+matmul", "selection=mask", "mode=nonhermitian"]}
+REQUIRED_CLASSES = {"all": ["kinds=eval+solve+matmul", "kinds=eval+matmul", "selection=mask", "mode=nonhermitian", "target=slice-blocks", "target=slice-orders"]}
 
 EXC = ["custom", "runtime", "notimplemented", "keyboard"]
 
@@ -79,6 +79,7 @@ def strategy(tier):
         for _ in range(draw(st.integers(2, 5))):
             sched.append([draw(st.sampled_from(["H_tilde", "U", "U_inv"])), draw(st.integers(0, nb - 1)), draw(st.integers(0, nb - 1))] + list(draw(st.sampled_from(orders))))
         return {"problem": p, "with_solver": with_solver, "target": target, "schedule": sched, "form": draw(st.sampled_from(["blocked", "scalar"])),
+                "target_slice": draw(st.sampled_from([None, None, "blocks", "orders"])),
                 "double": draw(st.integers(0, 10**6)), "double_n": 0 if tier == "quick" else 2}
 
     return cases()
@@ -131,9 +132,13 @@ def _build(p, form, ticker, with_solver):
         return dict(zip(("H_tilde", "U", "U_inv"), block_diagonalize(H, **kwargs)))
 
 
-def _get(outs, req):
+def _get(outs, req, how=None):
     with warnings.catch_warnings():
         warnings.simplefilter("ignore")
+        if how == "blocks":  # all blocks of the series at this order in ONE request
+            return outs[req[0]][(slice(None), slice(None)) + tuple(req[3:])]
+        if how == "orders":  # all orders 0..n of the first parameter in ONE request
+            return outs[req[0]][(req[1], req[2], slice(0, req[3] + 1)) + tuple(req[4:])]
         return outs[req[0]][(req[1], req[2]) + tuple(req[3:])]
 
 
@@ -149,6 +154,10 @@ def check_case(case, enforce_all=False):
         clean_tick = Tick(kinds=kinds)
         clean = _build(p, case["form"], clean_tick, with_solver)
         at_definition = clean_tick.count
+        how = case.get("target_slice")
+        if how:
+            _get(clean, target, how)
+            out.labels.append("target=slice-" + how)
         ref_target = _norm(_get(clean, target))
         T = clean_tick.count
         table = [_norm(_get(clean, r)) for r in sched]
@@ -168,7 +177,7 @@ def check_case(case, enforce_all=False):
                 outs = None
                 try:
                     outs = _build(p, case["form"], tick, with_solver)
-                    _get(outs, target)
+                    _get(outs, target, how)
                     raised = None
                 except BaseException as exc:  # noqa: BLE001
                     raised = exc
